@@ -6,6 +6,7 @@ import (
 	"path/filepath"
 	"time"
 
+	"qeepverif/internal/drive"
 	"qeepverif/internal/run"
 )
 
@@ -118,7 +119,12 @@ func init() {
 		if err := dumpAndReplay(c, tmc, 30*time.Minute); err != nil {
 			return err
 		}
-		return nil
+		// code -> spec: histories recorded from the real library, validated by TLC
+		nt := 150
+		if c.Thorough {
+			nt = 3000
+		}
+		return c.ValidateTraces(nt, drive.Opts{Steps: 40, MaxNodes: 24, Resets: false, MaxBPs: 2, ValueCap: 30, Fanout: true}, "dag")
 	})
 }
 
@@ -135,7 +141,14 @@ func init() {
 		if err := modelCheck(c, mc, 40*time.Minute); err != nil {
 			return err
 		}
-		return dumpAndReplay(c, dump, 40*time.Minute)
+		if err := dumpAndReplay(c, dump, 40*time.Minute); err != nil {
+			return err
+		}
+		nt := 150
+		if c.Thorough {
+			nt = 3000
+		}
+		return c.ValidateTraces(nt, drive.Opts{Steps: 60, MaxNodes: 16, Resets: true, MaxBPs: 5, ValueCap: 30}, "history")
 	})
 	register("C10", "model_checking", func(c *run.Ctx) error {
 		c.Rule = "TLC explores the Autograd machine over the operations that take or hand out caller-owned slices with the environment action Scribble enabled between any two calls (also between graph construction and BackPropagate) and checks the frame properties C10_ValuesFrozen / C10_GradOnlyInBP / C10_TrackedOnlyByReset / C10_ScribbleIsInert on every step; every transition into an idle state is replayed with the slices REALLY overwritten (dims -> 7, ranges -> {5,9}, tensor-list entries -> another tensor, nested data -> 7, Shape() result -> 7) at the TLC-chosen points and the complete state compared; distinct = distinct witness paths"
